@@ -830,3 +830,287 @@ Example ex_do_parse :
       [Some (Some SCmdLine, [[b1 98]]); Some (Some SCmdLine, [[b1 98]]);
        Some (Some SCmdLine, [[b1 98]]); Some (Some SCmdLine, [[b1 98]])].
 Proof. vm_compute. eexists. repeat split; reflexivity. Qed.
+
+(** * Part 5: the entries of a level do not depend on the recorded subcommand
+    Every phase that stores values ([react], [resolve_pending], [add_env], [add_defaults]) commutes
+    with setting [mt_sub]: the entries of a level are those its own prefix produces. *)
+Definition msub (s : option (bytes * matches)) (m : matcher) : matcher := m <| mt_sub := s |>.
+Definition ssub (s : option (bytes * matches)) (st : ps) : ps := st <| mt := msub s (mt st) |>.
+Definition rmap {A B} (f : A -> B) (g : ps -> ps) (r : res A) : res B :=
+  match r with ROk a => ROk (f a) | RErr e st => RErr e (g st) | RPanic x => RPanic x end.
+
+Lemma rmap_bind {A B A' B'} (f : A -> A') (f' : B -> B') g (r : res A) (k : A -> res B) (k' : A' -> res B') :
+  (forall a, k' (f a) = rmap f' g (k a)) ->
+  rbind (rmap f g r) k' = rmap f' g (rbind r k).
+Proof. intros H. destruct r; cbn [rmap rbind]; [apply H|reflexivity|reflexivity]. Qed.
+
+Lemma rmap_expect {A B} (f : A -> B) g site (o : option A) :
+  expect site (option_map f o) = rmap f g (expect site o).
+Proof. destruct o; reflexivity. Qed.
+
+Section SubFrame.
+Variable c : cmd.
+Variable s : option (bytes * matches).
+
+Lemma mt_remove_msub m i : mt_remove (msub s m) i = (msub s (fst (mt_remove m i)), snd (mt_remove m i)).
+Proof. unfold mt_remove, msub. cbn. destruct (fm_remove i (mt_args m)); reflexivity. Qed.
+
+Lemma fold_remove_msub l : forall m,
+  fold_left (fun m o => fst (mt_remove m o)) l (msub s m) = msub s (fold_left (fun m o => fst (mt_remove m o)) l m).
+Proof.
+  induction l as [|o t IH]; intros m; cbn [fold_left]; [reflexivity|].
+  rewrite mt_remove_msub. cbn [fst]. apply IH.
+Qed.
+
+Lemma remove_overrides_msub a m : remove_overrides c a (msub s m) = msub s (remove_overrides c a m).
+Proof.
+  unfold remove_overrides. rewrite fold_remove_msub.
+  set (m1 := fold_left (fun m o => fst (mt_remove m o)) (a_overrides a) m).
+  change (arg_ids (msub s m1)) with (arg_ids m1). apply fold_remove_msub.
+Qed.
+
+Lemma add_val_to_msub m i v : add_val_to (msub s m) i v = option_map (msub s) (add_val_to m i v).
+Proof.
+  unfold add_val_to, msub. cbn. destruct (fm_get i (mt_args m)) as [ma|]; [|reflexivity].
+  destruct (append_val v ma); reflexivity.
+Qed.
+Lemma add_index_to_msub m i k : add_index_to (msub s m) i k = option_map (msub s) (add_index_to m i k).
+Proof. unfold add_index_to, msub. cbn. destruct (fm_get i (mt_args m)); reflexivity. Qed.
+
+Lemma start_custom_arg_msub a sr m :
+  start_custom_arg c a sr (msub s m) = rmap (msub s) (ssub s) (start_custom_arg c a sr m).
+Proof.
+  unfold start_custom_arg.
+  assert (H1 : match sr with SCmdLine => remove_overrides c a (msub s m) | _ => msub s m end =
+               msub s (match sr with SCmdLine => remove_overrides c a m | _ => m end)).
+  { destruct sr; try reflexivity. apply remove_overrides_msub. }
+  rewrite H1. set (m1 := match sr with SCmdLine => remove_overrides c a m | _ => m end).
+  change (start_custom_arg_m (msub s m1) a sr) with (msub s (start_custom_arg_m m1 a sr)).
+  destruct (src_explicit sr); [|reflexivity].
+  generalize (groups_for_arg c (a_id a)). intros gl.
+  change (ROk (msub s (start_custom_arg_m m1 a sr)) : res matcher)
+    with (rmap (msub s) (ssub s) (ROk (start_custom_arg_m m1 a sr) : res matcher)).
+  generalize (ROk (start_custom_arg_m m1 a sr) : res matcher). intros acc. revert acc.
+  induction gl as [|g t IH]; intros acc; cbn [fold_left]; [reflexivity|].
+  rewrite <- IH. f_equal.
+  apply rmap_bind. intros m0.
+  change (start_custom_group_m (msub s m0) g sr) with (msub s (start_custom_group_m m0 g sr)).
+  rewrite add_val_to_msub. apply rmap_expect.
+Qed.
+
+Lemma push_arg_values_ssub a : forall raw st,
+  push_arg_values c a raw (ssub s st) = rmap (ssub s) (ssub s) (push_arg_values c a raw st).
+Proof.
+  induction raw as [|v t IH]; intros st; cbn [push_arg_values]; [reflexivity|].
+  destruct (a_vp a) as [vp|]; cbn [expect rbind]; [|reflexivity].
+  destruct (vp_parse vp v); [reflexivity|].
+  change (mt (ps_bump (ssub s st))) with (msub s (mt (ps_bump st))).
+  rewrite add_val_to_msub.
+  destruct (add_val_to (mt (ps_bump st)) (a_id a) v) as [m1|]; cbn [option_map expect rbind]; [|reflexivity].
+  change (cur_idx (ps_bump (ssub s st))) with (cur_idx (ps_bump st)).
+  rewrite add_index_to_msub.
+  destruct (add_index_to m1 (a_id a) (cur_idx (ps_bump st))) as [m2|]; cbn [option_map expect rbind]; [|reflexivity].
+  replace (ps_bump (ssub s st) <| mt := msub s m2 |>) with (ssub s (ps_bump st <| mt := m2 |>)) by reflexivity.
+  apply IH.
+Qed.
+
+Lemma verify_num_args_ssub a raw st :
+  verify_num_args c a raw (ssub s st) = rmap (fun u : unit => u) (ssub s) (verify_num_args c a raw st).
+Proof.
+  unfold verify_num_args. destruct (is_set s_ignore_errors c); [reflexivity|].
+  destruct (a_num a) as [r|]; cbn [expect rbind]; [|reflexivity].
+  destruct (_ && _); [reflexivity|]. destruct (r_num_values r).
+  - destruct (negb _); reflexivity.
+  - destruct (_ <? _); [reflexivity|]. destruct (_ <? _); [|reflexivity]. destruct raw; reflexivity.
+Qed.
+
+Notation pmap := (rmap (fun x : ps * presult => (ssub s (fst x), snd x)) (ssub s)).
+
+Lemma tail_ssub a sr raw st m1 :
+  (do m2 <- start_custom_arg c a sr (msub s m1);
+   do st' <- push_arg_values c a raw (ssub s st <| mt := m2 |>);
+   ROk (st', PRValuesDone)) =
+  pmap (do m2 <- start_custom_arg c a sr m1;
+        do st' <- push_arg_values c a raw (st <| mt := m2 |>);
+        ROk (st', PRValuesDone)).
+Proof.
+  rewrite start_custom_arg_msub.
+  destruct (start_custom_arg c a sr m1) as [m2|e s1|x]; cbn [rmap rbind]; try reflexivity.
+  change (ssub s st <| mt := msub s m2 |>) with (ssub s (st <| mt := m2 |>)).
+  rewrite push_arg_values_ssub.
+  destruct (push_arg_values c a raw (st <| mt := m2 |>)); reflexivity.
+Qed.
+
+Lemma set_like_ssub idn sr a raw bump st :
+  set_like c idn sr a raw bump (ssub s st) = pmap (set_like c idn sr a raw bump st).
+Proof.
+  unfold set_like.
+  set (b := bump && is_cmdline sr && is_flag_ident idn).
+  assert (Hb : (if b then ps_bump (ssub s st) else ssub s st) = ssub s (if b then ps_bump st else st))
+    by (destruct b; reflexivity).
+  rewrite Hb. set (st1 := if b then ps_bump st else st).
+  change (mt (ssub s st1)) with (msub s (mt st1)). rewrite mt_remove_msub.
+  destruct (mt_remove (mt st1) (a_id a)) as [m1 removed]. cbn [fst snd].
+  destruct (removed && negb (self_override c a)); [reflexivity|].
+  change (ssub s st1 <| mt := msub s m1 |>) with (ssub s (st1 <| mt := m1 |>)).
+  exact (tail_ssub a sr raw (st1 <| mt := m1 |>) m1).
+Qed.
+
+Lemma react_core_ssub idn sr a raw ti st :
+  react_core c idn sr a raw ti (ssub s st) = pmap (react_core c idn sr a raw ti st).
+Proof.
+  rewrite !react_core_unfold.
+  assert (Hv : (if is_cmdline sr then verify_num_args c a raw (ssub s st) else ROk tt) =
+               rmap (fun u : unit => u) (ssub s) (if is_cmdline sr then verify_num_args c a raw st else ROk tt))
+    by (destruct (is_cmdline sr); [apply verify_num_args_ssub|reflexivity]).
+  rewrite Hv.
+  destruct (if is_cmdline sr then verify_num_args c a raw st else ROk tt) as [[]|e s1|x]; cbn [rmap rbind]; try reflexivity.
+  destruct (occ_values c a raw ti) as [vals|]; cbn [expect rbind]; [|reflexivity].
+  unfold react_action. destruct (a_get_action a); try reflexivity; try apply set_like_ssub.
+  - set (b := is_cmdline sr && is_flag_ident idn).
+    assert (Hb : (if b then ps_bump (ssub s st) else ssub s st) = ssub s (if b then ps_bump st else st))
+      by (destruct b; reflexivity).
+    rewrite Hb. set (st1 := if b then ps_bump st else st).
+    exact (tail_ssub a sr vals st1 (mt st1)).
+  - change (existing_count a (mt (ssub s st))) with (existing_count a (mt st)).
+    change (mt (ssub s st)) with (msub s (mt st)). rewrite mt_remove_msub.
+    destruct (mt_remove (mt st) (a_id a)) as [m1 removed]. cbn [fst snd].
+    exact (tail_ssub a sr _ st m1).
+Qed.
+
+Lemma resolve_pending_ssub st : resolve_pending c (ssub s st) = rmap (ssub s) (ssub s) (resolve_pending c st).
+Proof.
+  unfold resolve_pending. change (mt_pending (mt (ssub s st))) with (mt_pending (mt st)).
+  destruct (mt_pending (mt st)) as [p|]; [|reflexivity].
+  destruct (find_arg c (p_id p)) as [a|]; cbn [expect rbind]; [|reflexivity].
+  change (ssub s st <| mt := mt (ssub s st) <| mt_pending := None |> |>)
+    with (ssub s (st <| mt := mt st <| mt_pending := None |> |>)).
+  rewrite react_core_ssub. destruct (react_core c _ _ _ _ _ _) as [x|e s1|y]; reflexivity.
+Qed.
+
+Lemma react_ssub idn sr a raw ti st : react c idn sr a raw ti (ssub s st) = pmap (react c idn sr a raw ti st).
+Proof.
+  unfold react. rewrite resolve_pending_ssub.
+  destruct (resolve_pending c st) as [st1|e s1|x]; cbn [rmap rbind]; try reflexivity. apply react_core_ssub.
+Qed.
+
+Lemma fold_ssub {X} (f : ps -> X -> res ps) (l : list X) :
+  (forall st x, f (ssub s st) x = rmap (ssub s) (ssub s) (f st x)) ->
+  forall r, fold_left (fun rst x => do st <- rst; f st x) l (rmap (ssub s) (ssub s) r) =
+            rmap (ssub s) (ssub s) (fold_left (fun rst x => do st <- rst; f st x) l r).
+Proof.
+  intros Hf. induction l as [|x t IH]; intros r; cbn [fold_left]; [reflexivity|].
+  rewrite <- IH. f_equal. destruct r; cbn [rmap rbind]; try reflexivity. apply Hf.
+Qed.
+
+Lemma add_env_ssub st : add_env c (ssub s st) = rmap (ssub s) (ssub s) (add_env c st).
+Proof.
+  unfold add_env.
+  apply (fold_ssub (fun st a => if mt_contains (mt st) (a_id a) then ROk st
+       else match a_env a with Some v => do x <- react c None SEnv a [v] None st; ROk (fst x) | None => ROk st end)
+       (c_args c)) with (r := ROk st).
+  intros st0 a. change (mt_contains (mt (ssub s st0)) (a_id a)) with (mt_contains (mt st0) (a_id a)).
+  destruct (mt_contains (mt st0) (a_id a)); [reflexivity|]. destruct (a_env a) as [v|]; [|reflexivity].
+  rewrite react_ssub. destruct (react c None SEnv a [v] None st0); reflexivity.
+Qed.
+
+Lemma add_default_value_ssub a st :
+  add_default_value c a (ssub s st) = rmap (ssub s) (ssub s) (add_default_value c a st).
+Proof.
+  unfold add_default_value.
+  change (mt_contains (mt (ssub s st)) (a_id a)) with (mt_contains (mt st) (a_id a)).
+  change (mt_args (mt (ssub s st))) with (mt_args (mt st)).
+  assert (Hplain : (if negb (is_nil (a_default a)) then
+                      if mt_contains (mt st) (a_id a) then ROk (ssub s st)
+                      else do x <- react c None SDefault a (a_default a) None (ssub s st); ROk (fst x)
+                    else ROk (ssub s st)) =
+                   rmap (ssub s) (ssub s)
+                     (if negb (is_nil (a_default a)) then
+                        if mt_contains (mt st) (a_id a) then ROk st
+                        else do x <- react c None SDefault a (a_default a) None st; ROk (fst x)
+                      else ROk st)).
+  { destruct (negb _); [|reflexivity]. destruct (mt_contains _ _); [reflexivity|].
+    rewrite react_ssub. destruct (react c None SDefault a (a_default a) None st); reflexivity. }
+  destruct (_ && _); [|exact Hplain].
+  destruct (List.find _ _) as [[[i p] [d|]]|]; [|reflexivity|exact Hplain].
+  rewrite react_ssub. destruct (react c None SDefault a [d] None st); reflexivity.
+Qed.
+
+Lemma add_defaults_ssub st : add_defaults c (ssub s st) = rmap (ssub s) (ssub s) (add_defaults c st).
+Proof.
+  unfold add_defaults.
+  apply (fold_ssub (fun st a => add_default_value c a st) (c_args c)) with (r := ROk st).
+  intros st0 a. apply add_default_value_ssub.
+Qed.
+
+(** the value-storing phases after the loop *)
+Definition fill (st : ps) : res ps :=
+  do st1 <- resolve_pending c st; do st2 <- add_env c st1; add_defaults c st2.
+
+Lemma fill_ssub st : fill (ssub s st) = rmap (ssub s) (ssub s) (fill st).
+Proof.
+  unfold fill. rewrite resolve_pending_ssub.
+  destruct (resolve_pending c st) as [st1|e s1|x]; cbn [rmap rbind]; try reflexivity.
+  rewrite add_env_ssub. destruct (add_env c st1) as [st2|e s2|x]; cbn [rmap rbind]; try reflexivity.
+  apply add_defaults_ssub.
+Qed.
+End SubFrame.
+
+Lemma ssub_eta st : ssub (mt_sub (mt st)) st = st.
+Proof. destruct st as [m ci fa fk]. destruct m as [ar pe su]. reflexivity. Qed.
+
+Lemma after_sub_ok f c n keep vaf st rest st2 :
+  after_sub f c n keep vaf st rest = ROk st2 -> st2 = ssub (mt_sub (mt st2)) st.
+Proof.
+  unfold after_sub. destruct (_ && _); [discriminate|].
+  destruct (find_subcommand c n) as [sc0|]; cbn [expect rbind]; [|discriminate].
+  destruct (build_subcommand c (c_name sc0)) as [sc|].
+  - destruct (negb (assert_app sc)); [discriminate|].
+    destruct (get_matches_with f sc rest (sub_init keep st)) as [sub_st|e sub_st|x]; [| |discriminate].
+    + intros H. inversion H. reflexivity.
+    + destruct (is_set s_ignore_errors c); [|discriminate]. intros H. inversion H. reflexivity.
+  - intros H. inversion H; subst. symmetry. apply ssub_eta.
+Qed.
+
+Lemma post_ok c x st : post c (ROk x) = ROk st -> fill c x = ROk st.
+Proof.
+  cbn [post]. unfold fill.
+  destruct (resolve_pending c x) as [st1|e s1|y]; cbn [rbind]; try discriminate.
+  destruct (add_env c st1) as [st2|e s2|y]; cbn [rbind]; try discriminate.
+  destruct (add_defaults c st2) as [st3|e s3|y]; cbn [rbind]; try discriminate.
+  unfold vres_to_res. destruct (validate c (mt st3)); try discriminate. intros H. exact H.
+Qed.
+
+Lemma post_err c e x st : is_set s_ignore_errors c = false -> post c (RErr e x) = ROk st -> False.
+Proof. intros Hi. cbn [post]. rewrite Hi. discriminate. Qed.
+
+(** level isolation on the entries: a successful level `pre ++ tok :: rest` ends in the state that
+    its own prefix — the loop on [pre] alone, then [resolve_pending], [add_env], [add_defaults] against
+    [c] — produces, with the subcommand record set: nothing of [tok :: rest] or of the child enters
+    the entries ([mt_args]), the pending buffer or the counters of the level *)
+Theorem level_entries c pre F tok n f rest st :
+  prefix_ok c pre F -> sel c tok n -> lvl_ok c ->
+  get_matches_with (S f) c (pre ++ tok :: rest) ps_new = ROk st ->
+  exists st' stf,
+    parse_loop c pre (lsV 1 false) ps_new = ROk (LDone st') /\
+    fill c st' = ROk stf /\
+    st = ssub (mt_sub (mt st)) stf.
+Proof.
+  intros Hp Hs [Hneg Hign] H.
+  rewrite (level_step c pre F tok n f Hp Hs Hneg rest ps_new eq_refl) in H.
+  rewrite (loop_prefix_alone c pre F Hp 1 false ps_new eq_refl).
+  destruct (F ps_new) as [st'|e s1|x]; cbn [rbind] in H |- *; [|exfalso; exact (post_err c e s1 st Hign H)|discriminate].
+  destruct (after_sub f c n false (negb (is_nil pre)) st' rest) as [st2|e s2|x] eqn:Ea;
+    [|exfalso; exact (post_err c e s2 st Hign H)|discriminate].
+  apply after_sub_ok in Ea. apply post_ok in H. rewrite Ea, fill_ssub in H.
+  destruct (fill c st') as [stf|e s3|x] eqn:Ef; cbn [rmap] in H; try discriminate.
+  exists st', stf. split; [reflexivity|]. split; [exact Ef|].
+  inversion H. reflexivity.
+Qed.
+
+Example ex_level_entries :
+  let c := build_self ex_chain in
+  exists st, get_matches_with 5 c ([dd w_verbose; dd (w_cfg ++ [61; 97])] ++ [115; 121] :: [[45; 121]]) ps_new = ROk st /\
+    lvl_ok c /\
+    map fst (mt_args (mt st)) = [w_verbose; w_cfg].
+Proof. vm_compute. eexists. repeat split; reflexivity. Qed.
